@@ -115,6 +115,16 @@ def downConv (r : Nat) (z : α) : Elem (List α × π) (α × π) Nat where
   bwd mux _ _ rdy := (mux + 1 == r) && rdy
   next mux v _ rdy := if v && rdy then (if mux + 1 == r then 0 else mux + 1) else mux
 
+/-- `_DownConverter` with its `valid_token_count` output (`source.valid_token_count.eq(last)`, `last = (mux ==
+    ratio-1)`): the same element, every source token decorated with that flag. -/
+def downConvV (r : Nat) (z : α) : Elem (List α × π) ((α × π) × Bool) Nat where
+  init := 0
+  fwd mux v t :=
+    let o := (downConv r z).fwd mux v t
+    (o.1, { data := (o.2.data, mux + 1 == r), first := o.2.first, last := o.2.last })
+  bwd := (downConv r z).bwd
+  next := (downConv r z).next
+
 /-! ### Elements that only re-label data (Cast, field maps of StrideConverter) -/
 
 def mapTok {β : Type} (f : α → β) (t : Tok α) : Tok β := { data := f t.data, first := t.first, last := t.last }
